@@ -9,7 +9,7 @@ open FixedMath.Chk
 
 theorem accSinW_sound (n : Nat) (pneg : Bool) (pmag : Nat) (h : accSinW n pneg pmag = true) :
     |(if pneg then -(pmag : ℝ) else (pmag : ℝ)) / 65536 - Real.sin ((n : ℝ) / 65536)|
-      ≤ (11 / 5) / 65536 + (((n - 4 : ℕ) : ℝ) / 65536) ^ 9 / 362880 := by
+      ≤ (11 / 5) / 65536 + (((n - 12 : ℕ) : ℝ) / 65536) ^ 9 / 362880 := by
   unfold accSinW at h
   simp only [Bool.and_eq_true, Nat.ble_eq] at h
   obtain ⟨hn, hc⟩ := h
@@ -28,19 +28,19 @@ theorem accSinW_sound (n : Nat) (pneg : Bool) (pmag : Nat) (h : accSinW n pneg p
     rw [hsc]; unfold sinScale; norm_num
   have hslack : ((sinScale 16 / 34359738368 : ℕ) : ℝ) = sc / 34359738368 := by
     rw [hsc]; unfold sinScale; norm_num
-  have hR : (((n - 4 : ℕ) : ℝ)) ^ 9 * 285506606436402966952094979430809600
-      = sc * ((((n - 4 : ℕ) : ℝ) / 65536) ^ 9 / 362880) := by
+  have hR : (((n - 12 : ℕ) : ℝ)) ^ 9 * 285506606436402966952094979430809600
+      = sc * ((((n - 12 : ℕ) : ℝ) / 65536) ^ 9 / 362880) := by
     rw [hsc]; unfold sinScale; push_cast; ring
   rw [abs_le] at henc
   obtain ⟨he1, he2⟩ := henc
   -- goal multiplied by sc
-  have key : ∀ p : ℝ, (|p * (sc / 65536) - sc * X| ≤ (11 / 5) * (sc / 65536) + sc * ((((n - 4 : ℕ) : ℝ) / 65536) ^ 9 / 362880)) →
-      |p / 65536 - X| ≤ (11 / 5) / 65536 + (((n - 4 : ℕ) : ℝ) / 65536) ^ 9 / 362880 := by
+  have key : ∀ p : ℝ, (|p * (sc / 65536) - sc * X| ≤ (11 / 5) * (sc / 65536) + sc * ((((n - 12 : ℕ) : ℝ) / 65536) ^ 9 / 362880)) →
+      |p / 65536 - X| ≤ (11 / 5) / 65536 + (((n - 12 : ℕ) : ℝ) / 65536) ^ 9 / 362880 := by
     intro p hp
     have e : p * (sc / 65536) - sc * X = sc * (p / 65536 - X) := by ring
     rw [e, abs_mul, abs_of_pos hscpos] at hp
-    have e2 : (11 / 5) * (sc / 65536) + sc * ((((n - 4 : ℕ) : ℝ) / 65536) ^ 9 / 362880)
-        = sc * ((11 / 5) / 65536 + (((n - 4 : ℕ) : ℝ) / 65536) ^ 9 / 362880) := by ring
+    have e2 : (11 / 5) * (sc / 65536) + sc * ((((n - 12 : ℕ) : ℝ) / 65536) ^ 9 / 362880)
+        = sc * ((11 / 5) / 65536 + (((n - 12 : ℕ) : ℝ) / 65536) ^ 9 / 362880) := by ring
     rw [e2] at hp
     exact le_of_mul_le_mul_left hp hscpos
   apply key
